@@ -355,13 +355,13 @@ theorem table_index_in_bounds : ∀ r ∈ TableBounds.rows, r.2.2 < r.2.1 := by
 of an invalid label, a misaligned align argument, then a valid bind that patches the reference -/
 def demoOps : List Op := [
   .newLabel,
-  .emit {} [0] (.accept [0xEB, 0x00] (some { label := 0, off := 1, rel := -1, fmt := simpleValue .signed 1, withReloc := false }) 0),
+  .emit {} [0] (.accept [0xEB, 0x00] (some { label := 0, off := 1, rel := -1, fmt := simpleValue .signed 1, withReloc := false }) 0 0),
   .emit { options := 0x10, comment := true } [] (.reject Err.invalidInstruction),
-  .emit {} [7] (.accept [0xE9, 0, 0, 0, 0] none 0),
+  .emit {} [7] (.accept [0xE9, 0, 0, 0, 0] none 0 0),
   .bind 5,
   .align 0 3,
   .embedLabel 9 4,
-  .emit {} [] (.accept [0x90] none 0),
+  .emit {} [] (.accept [0x90] none 0 0),
   .bind 0,
   .bind 0]
 
